@@ -15,6 +15,12 @@ CHECKS = {
  "C08": ("model_checking", "same explicit-state BFS as C01, oracle = independent FAT structural checker on the raw bytes after every transition (accepted or refused), plus Create sweep over size-table boundaries",
          "After Create and after every explored transition an independent reader (written from the FAT specification, shares no code) checks boot sector geometry vs the range given, FAT32 backup boot sector and FSInfo, equality of the FAT copies, every chain in range / terminated / long enough, no cross-links, no lost clusters.",
          "fatck defines structural soundness; '.'/'..' target clusters are noted, not judged (not in the statement)", "DESIGN.md §3 C08"),
+ "C10": ("model_checking", "explicit-state BFS to fixpoint over the handle state graph (cursor, closed, last call kind) on real file handles of every filesystem, bytes.Reader semantics as oracle",
+         "For each filesystem (fat12/16/32, ext4 single- and multi-extent, iso9660, squashfs with and without fragments) and file sizes around the block size, every reachable handle state under the alphabet Read{0,1,7,c-1,c,c+1,4c} x Seek{3 whences x 8 offsets} x Close is expanded with every letter (fixpoint for block sizes <= 1 KiB, depth 4/5 for iso/squashfs); returned bytes, counts, EOF timing, seek positions and behaviour after Close are compared with the io.Reader/io.Seeker contract.",
+         "a handle state is merged on (cursor, closed, kind of the last call); expansion stops for cursors more than two blocks past EOF", "DESIGN.md §3 C10"),
+ "C14": ("model_checking", "the C01 explicit-state exploration executed in three child processes per SOURCE_DATE_EPOCH with different owned wall clocks and a different start offset; per-transition volume digests compared",
+         "Every history of the FAT explorer (depth 3 quick / 4 thorough, FAT12/16/32, reproducible=true) is executed in three separate processes whose injected clocks differ (by a year and a second; advancing at every call) and, in one, with the volume at 1 MiB; the SHA-256 of the volume's byte range must agree after every transition for each SOURCE_DATE_EPOCH in {0,1,315532799,1700000001}. Every table of the C02 domain with GUIDs given is written twice (identical bytes) and re-written after being read (no change).",
+         "time.Now() is routed through the vtime seam by the build overlay, so a stray clock read shows deterministically", "DESIGN.md §3 C14"),
  "C02": ("exploration", "bounded-exhaustive enumeration of table inputs executed on the real Write/Read + independent on-disk parser",
          "Every table of a spelled-out finite cross product (entries, indices, spellings, geometries, names, attributes, types, disk sizes, sector sizes, PMBR, prior content) is written by the real code and compared via gpt.Read/mbr.Read, partition.Read, Disk.GetPartition and an independent UEFI-spec parser; exhaustive over that domain, says nothing outside it.",
          "memdev in-memory device; gptck (independent parser written from the UEFI spec) defines on-disk validity", "DESIGN.md §3 C02"),
